@@ -21,7 +21,7 @@ FAMS = gen.ALL_FAMILIES + ("exp_wall", "badly_scaled", "rosenbrock", "oscillatin
 
 def floors(tier):
     return {"runs": 800, "sequence_points": 4000, "line_searches": 3000, "line_searches_without_convergence": 300,
-            "runs_budget_inside_search": 50, "restart_runs": 60, "runs_with_user_step_cap": 100, "runs_with_free_optimum_grazing_a_bound": 60, "short_runs_with_capped_first_step": 200, "runs_from_a_low_precision_start": 60, "restart_runs_with_scaler_and_target": 60, "__nontrivial__": 200}
+            "runs_budget_inside_search": 50, "restart_runs": 60, "runs_in_25_to_140_dimensions_with_memory_above_10": 80, "runs_in_64_to_140_dimensions": 30, "runs_with_user_step_cap": 100, "runs_with_free_optimum_grazing_a_bound": 60, "short_runs_with_capped_first_step": 200, "runs_from_a_low_precision_start": 60, "restart_runs_with_scaler_and_target": 60, "__nontrivial__": 200}
 
 
 def cases(tier, seed):
@@ -43,7 +43,7 @@ def cases(tier, seed):
         }
         if i % 13 == 12:
             # scale: dimensions and memories larger than the bulk of the cases
-            ps["n"] = int(rng.integers(25, 61))
+            ps["n"] = int(rng.integers(25, 61)) if i % 26 == 12 else int(rng.integers(61, 141))
             cfg["maxcor"] = int(rng.integers(11, 31))
             cfg["maxiter"] = int(gen.pick(rng, [60, 150]))
         if i % 4 == 1:
@@ -161,6 +161,10 @@ def run(spec):
     else:
         P = gen.make_problem(spec["problem"])
     cfg = dict(spec["cfg"])
+    if P.n >= 25:
+        out.count("runs_in_25_to_140_dimensions_with_memory_above_10")
+        if P.n >= 64:
+            out.count("runs_in_64_to_140_dimensions")
     if spec.get("first_step_capped"):
         out.count("short_runs_with_capped_first_step")
     if spec.get("low_precision_start"):
